@@ -44,6 +44,24 @@ CLAIMED = {
  "C18": dict(tech="SAT calls counted and decoded per component through the public factory/encoder wrappers under exhaustive oracle exploration; bound evaluated by TLC from Dung.tla",
              text="Every query (single arguments and lists) on all frameworks <= 3 arguments under every SAT-model schedule, plus 4-argument classes, shaped and random frameworks: per query and per component the number of SAT calls (summed over solver instances) must not exceed the bound TLC computes from the component's base family, and PR never examines a candidate twice; a call cap observes non-termination.",
              ref="5 (C18)"),
+ "C05": dict(tech="Cli.tla outcome function; MCCli-exported invocation space run through the real binaries; TLC judges exit status, stdout shape and answer content",
+             text="The abstract invocation space (9492 legal combinations of binary, file kind, format, problem class, query kind, argument class, encoding, certificate flag, logging level) is enumerated by TLC with the outcome Cli.tla assigns; invocations are concretised on frameworks in both formats and run through crustabri and the ICCMA'23 wrapper; TLC checks exit status, that refusals print no answer, the exact shape of answers and their content (C01-C04 predicates); --problems must list exactly the 21 problems.",
+             ref="5 (C05), 3.7"),
+ "C10": dict(tech="Enc.tla transcription model-checked by brute force; real clause sets captured through SatSolver::add_clause, all models enumerated, judged by TLC against Dung.tla",
+             text="MCEnc proves for all frameworks <= 3 arguments that every encoder's models project exactly onto the intended family (hybrid threshold lowered to 2 to exercise both sides) and the range clauses; the real encoders' clause sets (all frameworks <= 3 arguments, 4-argument classes, funnels on both sides of threshold 32, random) are captured with reused encoder objects, all models enumerated, and TLC checks projection = intended family, range conditions and literal layout.",
+             ref="5 (C10), 3.4"),
+ "C11": dict(tech="metamorphic relations as MCDung theorems; pairs of real runs on transformed frameworks (20-300 arguments) and cross-semantics consistency judged by TLC",
+             text="Relations (isomorphism invariance, product over components, ST/SST/STG coincidence, DC-CO = DC-PR, GR in ID in PR, skeptical implies credulous) are theorems checked over all frameworks <= 3 (4) arguments; on 250+ frameworks of 20-300 arguments and 700+ smaller ones the same queries are run on 4 transforms and TLC checks the expected statuses and polynomial necessary conditions on returned sets.",
+             ref="5 (C11), 3.7"),
+ "C13": dict(tech="Reader.tla verdicts over line kinds; MCReader-exported abstract files concretised and read by the real readers; byte/token fuzz for totality; TLC judges",
+             text="All abstract files of <= 4 (5) lines over 18 ICCMA / 17 Aspartix line kinds are classified by the specification (must accept as exactly this framework / must reject / unspecified), checked against the readers' own state machines in TLA+, concretised in several byte-level variants and read by the real readers; query-argument strings; 60k (400k) corrupted / random inputs for totality.",
+             ref="5 (C13), 3.7"),
+ "C14": dict(tech="Store.tla state carried by TLC vs. framework written by AspartixWriter and read back; response writers tokenised and compared by TLC",
+             text="Random update histories (tombstones, id holes) on AAFramework<String>; after random steps the framework is written in Aspartix format and read back, and TLC compares labels in order, attack set and line count with the abstract state it carried itself; extensions (incl. empty), statuses and 'no extension' through both response writers must read back exactly.",
+             ref="5 (C14)"),
+ "C19": dict(tech="EquivalencyComputer output judged by TLC: classes sound w.r.t. CO(af) of Dung.tla, mappings total and inverse",
+             text="All frameworks <= 3 arguments, 4-argument classes, shaped, random and grounded-mix frameworks (propagation-sensitive shapes) through the reducer; TLC computes CO(af) and checks that merged arguments belong to the same complete extensions, that classes partition the arguments and that the two mappings are inverse on classes.",
+             ref="5 (C19)"),
 }
 
 NOTE = ("Trusted: TLC + CommunityModules; Dung.tla (cross-checked by MCDung's theorem suite); the harness wrappers around the public extension "
@@ -67,7 +85,7 @@ def main():
             "level_note": c.get("note", NOTE),
             "technique": c["tech"],
         })
-    na = [{"property_id": p, "reason": "check not built yet in this round (planned: DESIGN.md section 5); not claimed"} for p in ALL if p not in CLAIMED]
+    na = [{"property_id": p, "reason": "check not built yet (planned: DESIGN.md section 5); not claimed"} for p in ALL if p not in CLAIMED]
     m = {
         "version": 1,
         "setup_cmd": "cd /verif/harness && cp -n /repo/Cargo.lock Cargo.lock; CARGO_NET_OFFLINE=true cargo build --offline --quiet && cd /verif/spec && for m in *.tla; do tla-sany $m >/dev/null || exit 1; done",
